@@ -21,7 +21,7 @@ for f in files: o["Replace"]["/repo/"+f]=scratch+"/src/"+f
 json.dump(o,open(scratch+"/overlay.json","w"))
 P
 cd /verif/mc
-if ! $GO build -tags verif -overlay "$scratch/overlay.json" -o "$scratch/check" ./cmd/check 2>"$scratch/build.err"; then
+if ! $GO build -tags verif -overlay "$scratch/overlay.json" -o "$scratch/check" ${CHECK_MAIN:-./cmd/check} 2>"$scratch/build.err"; then
   echo "mutant: build failed"; cat "$scratch/build.err"; exit 2
 fi
 cd /verif
